@@ -119,6 +119,10 @@ Definition Phi (s : state) : nat := cpot (cp s) (blk s) + crt (cp s) (st s) + ws
 Definition B0 : nat := Tl + allb + 3 * N + 1.
 Definition Bmax : nat := B0 + PB + N * (1 + 2 * wmax).
 
+(* B0 written out *)
+Lemma B0_closed_form : B0 = (3 * N + 5) + ((na + N - 1) / N) * (6 + N * (9 + 2 * N)) + 3 * N + 1.
+Proof. reflexivity. Qed.
+
 Lemma wpot_le_wmax : forall p x, wpot p x <= wmax.
 Proof. intros p x. unfold wmax. destruct p, x; simpl; lia. Qed.
 
@@ -387,6 +391,15 @@ Proof. intros sch s s' Hr. assert (H := run_bound _ _ _ Hr). assert (H2 := Phi_l
 
 Lemma run_bound_init : forall sch s', run N na lt fixed init sch = Some s' -> length sch <= B0.
 Proof. intros sch s' Hr. assert (H := run_bound _ _ _ Hr). rewrite Phi_init in H. lia. Qed.
+
+Lemma run_bounds : forall sch s s', run N na lt fixed s sch = Some s' -> length sch <= Bmax /\ (s = init -> length sch <= B0).
+Proof.
+  intros sch s s' Hr. split; [exact (run_bound_any sch s s' Hr)|]. intros ->. exact (run_bound_init sch s' Hr).
+Qed.
+
+Lemma measure_facts : forall s t s',
+  (step N na lt fixed s t = Some s' -> Phi s' < Phi s) /\ (spurious N s t = Some s' -> Phi s' <= Phi s + 2).
+Proof. intros s t s'. split; [apply step_decreases | apply spurious_raises]. Qed.
 
 (* well-foundedness of the (converse) step relation, on all states *)
 Definition step_succ (s' s : state) : Prop := exists t, step N na lt fixed s t = Some s'.
